@@ -179,6 +179,7 @@ libNew(FileName fname, Bool rdOnly, FILE *f, Offset pos)
 	lib->name	= fnameCopy(fname);
 	lib->arent	= NULL;
 	lib->rdOnly	= rdOnly;
+	lib->wrMode	= false;
 	lib->intLoaded	= false;
 	lib->idName	= NULL;
 	lib->file	= f;
@@ -232,7 +233,9 @@ libRead(FileName fname)
 Lib
 libWrite(FileName fname)
 {
-	return libNew(fname, false, fileWubOpen(fname), (Offset) 0);
+	Lib lib = libNew(fname, false, fileWubOpen(fname), (Offset) 0);
+	lib->wrMode = true;
+	return lib;
 }
 
 /*
@@ -332,10 +335,13 @@ libClose(Lib lib)
 {
 	if (lib->rdOnly)
 		stabFree(lib->stab);
-	else
+	else if (lib->wrMode)
 		libPutHeader(lib);
 
-	if (!(lib->rdOnly & 2)) fclose(lib->file);	
+	if (lib->wrMode)
+		fileCloseOut(lib->name, lib->file);
+	else if (!(lib->rdOnly & 2))
+		fclose(lib->file);
 	libUnRegister(lib);
 	fnameFree(lib->name);
 
